@@ -8,7 +8,7 @@ from harness import gen as G
 from harness import htaio
 from harness.props import common as C
 
-N_CASES = {"quick": 150, "thorough": 2400}
+N_CASES = {"quick": 240, "thorough": 2400}
 SHRINK = True
 SYNC_NAMES = {"Event Sync", "Context Sync"}
 ASSUMPTIONS = [
